@@ -31,3 +31,22 @@ contract(T, '_extract_waveform', props=['C03'],
               'all(implies(0 <= t0 + k and t0 + k < dur, result[k] == %s) for k in range(nsw))' % (_ROW % 't0 + k')),
              ('rows-outside-the-recording-are-zero',
               'all(implies(t0 + k < 0 or t0 + k >= dur, result[k] == zero_row(elem_len(channel_ids))) for k in range(nsw))')])
+
+# extract_waveforms: "direct extraction ... return exactly this window for every spike" (block i of the result is the window of spike i)
+_ROWS = "op_row('zero_cols', mask_eq(channel_ids, -1), op_row('cols', channel_ids, ops_fold(traces._ops, len(traces._ops), traces.rows[%s])))"
+XF = dict(FIELDS, dtype='elem')
+declare_class('BaseEphysReader', T, fields={'dtype': 'elem'})
+contract(T, 'extract_waveforms', props=['C03'],
+    params={'traces': 'obj[BaseEphysReader]', 'spike_samples': 'arr[int]', 'channel_ids': 'elem', 'n_samples_waveforms': 'int'}, kinds={'channel_ids': 'ndarray'},
+    let={'dur': 'len(traces.rows)', 'nsw': 'n_samples_waveforms', 'a': 'n_samples_waveforms // 2'},
+    requires=[(l, e.replace('self.', 'traces.')) for l, e in AWF] + [
+        ('two-dimensional', 'traces.ndim == 2'), ('a-channel-list-is-given', 'channel_ids is not None'),
+        ('spikes-inside-the-recording', 'all(0 <= spike_samples[i] and spike_samples[i] < dur for i in range(len(spike_samples)))'),
+        ('window-length-positive', 'nsw >= 1')],
+    result='cube[elem]',
+    loops={0: {'idx': 'i', 'invariant': [
+        ('shape', '0 <= i and i <= len(spike_samples) and len(out) == len(spike_samples) and width(out) == nsw'),
+        ('windows-so-far', 'all(all(implies(0 <= spike_samples[q] - a + k and spike_samples[q] - a + k < dur, out[q][k] == %s) and implies(spike_samples[q] - a + k < 0 or spike_samples[q] - a + k >= dur, out[q][k] == zero_row(elem_len(channel_ids))) for k in range(nsw)) for q in range(i))' % (_ROWS % 'spike_samples[q] - a + k'))]}},
+    ensures=[('one-window-per-spike', 'len(result) == len(spike_samples) and width(result) == nsw'),
+             ('window-rows-inside-the-recording', 'all(all(implies(0 <= spike_samples[q] - a + k and spike_samples[q] - a + k < dur, result[q][k] == %s) for k in range(nsw)) for q in range(len(spike_samples)))' % (_ROWS % 'spike_samples[q] - a + k')),
+             ('window-rows-outside-the-recording-are-zero', 'all(all(implies(spike_samples[q] - a + k < 0 or spike_samples[q] - a + k >= dur, result[q][k] == zero_row(elem_len(channel_ids))) for k in range(nsw)) for q in range(len(spike_samples)))')])
